@@ -13,7 +13,8 @@ PROP = dict(
     rule='one run = (root position, solver configuration). Roots: positions of random legal playouts and positions drawn from the solved '
          'graph itself, for 3x3 with 2-3 stones (with and without a capstone, both tie-break settings) and 4x4 with 1-2 stones (thorough: '
          '4x4 with 3 stones / 2 stones + capstone, 3x3 with 4 stones), whose complete reachable game graph (up to 1.2e7 positions) is solved '
-         'exactly for both attackers by retrograde analysis; plus 4x4/5x5 positions with default reserves near the end of road races, '
+         'exactly for both attackers by retrograde analysis; among them shuffle-prone roots (a wall and a stack on the board: the hunt for a '
+         'wrong verdict caused by repetition) and finished games as roots; plus 4x4/5x5 positions with default reserves near the end of road races, '
          'judged one-sidedly by exhaustive search to depth 3-5. Solvers: PN (node limits 5..20000 and unlimited, MaxDepth 0..8, '
          'PreserveSolved on/off), PN-squared, DFPN (tables of 1..65536 entries, attacker unset / White / Black). Every run is judged by '
          'the oracle; the runs without PN-squared whose cost is within the model budget are also replayed by the extracted Coq model. '
@@ -24,12 +25,17 @@ PROP = dict(
 )
 
 MANIFEST = dict(
-    text="Coq: truth_equiv (a forced win under the third-repetition rule = membership in the history-free attractor, any game) and "
-         "soundness theorems over the code-shaped PN model Pn.v (see Properties/C06.v for what is proved). The extracted models of "
-         "prove/pn.go and prove/dfpn.go are replayed against Prover.Prove / DFPNSolver.Prove (verdict and move at L1; proof numbers, depth "
-         "and all counters at L2), and an independent retrograde solver of the complete reachable game graph judges every verdict and "
-         "returned move (proven-but-not-won, disproven-but-won, proven-move-loses).",
-    ref='5.6', technique='Coq proof (truth = attractor; PN invariant) + extracted-model/implementation differential + exact retrograde oracle',
+    text="Coq (closed under the global context): truth_equiv / truth_equiv_bounded (a forced win under the third-repetition rule = "
+         "membership in the history-free attractor, any game, with a depth bound and positions identified by Position.Equal); "
+         "pn_invariant (every node of every tree the PN search loop of the code-shaped model Pn.v reaches: proof number 0 -> forced win, "
+         "disproof number 0 -> not won on its line of play within MaxDepth, children = legal moves, complete unless expand broke off at a "
+         "settling child) and pn_verdict_sound for the entry point pn_run (proven -> forced win and the returned move keeps it; disproven -> "
+         "no win within MaxDepth under the repetition rule), for every node limit / PreserveSolved / MaxDepth, boards up to 8x8. The "
+         "extracted models of prove/pn.go and prove/dfpn.go are replayed against Prover.Prove / DFPNSolver.Prove (verdict and move at L1; "
+         "proof numbers, depth and all counters at L2), and an independent retrograde solver of the complete reachable game graph judges "
+         "every verdict and returned move of PN, PN-squared and DFPN (proven-but-not-won, disproven-but-won, proven-move-loses).",
+    ref='5.6', technique='Coq proof (truth = attractor; PN invariant and verdict soundness over the code-shaped model) + extracted-model/implementation differential + exact retrograde oracle',
     note="Trusted: Coq kernel, extraction, transcription of prove/pn.go and prove/dfpn.go (validated by execution), generators, the "
-         "retrograde oracle (uses the rules engine to enumerate the graph). DFPN disproof across paths (graph-history interaction) is "
-         "tested by the oracle, not proved.")
+         "retrograde oracle (uses the rules engine to enumerate the graph). Not proved: DFPN soundness (proven under NoCollision; "
+         "disproven across paths = graph-history interaction, hunted by the oracle on shuffle-prone roots), PN-squared, and the "
+         "congruence of Position.Equal that links the PN theorem's line-of-play truth to the attractor (the two _partial corollaries).")
